@@ -15,6 +15,9 @@ class Model:
         self.pairs = [tuple(p) for p in pairs] if pairs else \
             [(s, ns) for s in range(T) for ns in NSS]
 
+    def _cap(self, s, ns):
+        return self.cap if (s, ns) == (0, '/') else max(1, self.cap - 1)
+
     def initial(self):
         w = ServerWorld(is_async=self.is_async, namespaces=list(NSS))
         w.violations = []
@@ -44,11 +47,13 @@ class Model:
                 else:
                     ops.append(('cdisc', s, ns))
                     ops.append(('sdisc', s, ns))
-                    if w.writes.get((s, ns), 0) < self.cap:
+                    if w.writes.get((s, ns), 0) < self._cap(s, ns):
                         ops.append(('save', s, ns))
                         ops.append(('mutate', s, ns))
                         ops.append(('nested', s, ns))
                         ops.append(('nested2', s, ns))
+                        ops.append(('save-in-block', s, ns))
+                        ops.append(('save-small', s, ns))
         return ops
 
     def _bad(self, w, key, msg):
@@ -73,7 +78,7 @@ class Model:
                 return
             w.conn[(s, ns)] = sid
             w.ref[(s, ns)] = {}
-            w.gen[(s, ns)] = min(2, w.gen.get((s, ns), 0) + 1)
+            w.gen[(s, ns)] = w.gen.get((s, ns), 0) + 1
         elif kind in ('cdisc', 'sdisc'):
             _, s, ns = op
             if kind == 'cdisc':
@@ -92,11 +97,47 @@ class Model:
         elif kind == 'save':
             _, s, ns = op
             w.counter += 1
-            val = {'owner': [s, ns, w.slot[s]], 'n': w.counter}
+            val = {'owner': [s, ns, w.slot[s], w.gen[(s, ns)]], 'n': w.counter}
             r = w.api('save_session', w.conn[(s, ns)], val, namespace=ns)
             if r[0] == 'exc':
                 self._bad(w, 'exception', f'{op} raised {r[1:]}')
             w.ref[(s, ns)] = dict(val)
+            w.writes[(s, ns)] = w.writes.get((s, ns), 0) + 1
+        elif kind == 'save-small':
+            # replace the session by a dict that lacks every earlier key
+            _, s, ns = op
+            w.counter += 1
+            val = {'only%d' % w.counter: [s, ns, w.slot[s], w.gen[(s, ns)]]}
+            r = w.api('save_session', w.conn[(s, ns)], val, namespace=ns)
+            if r[0] == 'exc':
+                self._bad(w, 'exception', f'{op} raised {r[1:]}')
+            w.ref[(s, ns)] = dict(val)
+            w.writes[(s, ns)] = w.writes.get((s, ns), 0) + 1
+        elif kind == 'save-in-block':
+            # inside a session() block somebody saves another dict; the
+            # block then changes its own dict and exits: what the block
+            # holds is what is persisted
+            _, s, ns = op
+            w.counter += 1
+            n = w.counter
+            sid = w.conn[(s, ns)]
+            other = {'other%d' % n: [s, ns, w.slot[s], w.gen[(s, ns)]]}
+            if self.is_async:
+                async def block():
+                    async with sio.session(sid, namespace=ns) as sess:
+                        await sio.save_session(sid, dict(other),
+                                               namespace=ns)
+                        sess['m%d' % n] = [s, ns, w.slot[s], w.gen[(s, ns)]]
+                r = w.run(block)
+            else:
+                def block():
+                    with sio.session(sid, namespace=ns) as sess:
+                        sio.save_session(sid, dict(other), namespace=ns)
+                        sess['m%d' % n] = [s, ns, w.slot[s], w.gen[(s, ns)]]
+                r = w.run(block)
+            if r[0] == 'exc':
+                self._bad(w, 'exception', f'{op} raised {r[1:]}')
+            w.ref[(s, ns)]['m%d' % n] = [s, ns, w.slot[s], w.gen[(s, ns)]]
             w.writes[(s, ns)] = w.writes.get((s, ns), 0) + 1
         elif kind in ('mutate', 'nested', 'nested2'):
             _, s, ns = op
@@ -107,27 +148,27 @@ class Model:
                 async def block():
                     async with sio.session(sid, namespace=ns) as sess:
                         if kind != 'nested2':
-                            sess['m%d' % n] = [s, ns, w.slot[s]]
+                            sess['m%d' % n] = [s, ns, w.slot[s], w.gen[(s, ns)]]
                         if kind != 'mutate':
                             async with sio.session(sid, namespace=ns) as s2:
                                 s2['inner%d' % n] = True
                         if kind == 'nested2':
-                            sess['m%d' % n] = [s, ns, w.slot[s]]
+                            sess['m%d' % n] = [s, ns, w.slot[s], w.gen[(s, ns)]]
                 r = w.run(block)
             else:
                 def block():
                     with sio.session(sid, namespace=ns) as sess:
                         if kind != 'nested2':
-                            sess['m%d' % n] = [s, ns, w.slot[s]]
+                            sess['m%d' % n] = [s, ns, w.slot[s], w.gen[(s, ns)]]
                         if kind != 'mutate':
                             with sio.session(sid, namespace=ns) as s2:
                                 s2['inner%d' % n] = True
                         if kind == 'nested2':
-                            sess['m%d' % n] = [s, ns, w.slot[s]]
+                            sess['m%d' % n] = [s, ns, w.slot[s], w.gen[(s, ns)]]
                 r = w.run(block)
             if r[0] == 'exc':
                 self._bad(w, 'exception', f'{op} raised {r[1:]}')
-            w.ref[(s, ns)]['m%d' % n] = [s, ns, w.slot[s]]
+            w.ref[(s, ns)]['m%d' % n] = [s, ns, w.slot[s], w.gen[(s, ns)]]
             if kind != 'mutate':
                 w.ref[(s, ns)]['inner%d' % n] = True
             w.writes[(s, ns)] = w.writes.get((s, ns), 0) + 1
@@ -142,11 +183,12 @@ class Model:
                     ref = w.ref[(s, ns)]
                     shape = ('saved' if 'owner' in ref else 'plain',
                              sum(1 for k in ref if k.startswith('m')),
-                             sum(1 for k in ref if k.startswith('inner')))
+                             sum(1 for k in ref if k.startswith('inner')),
+                             sum(1 for k in ref if k.startswith('only')))
                     st.append((True, w.writes.get((s, ns), 0), shape,
-                               w.gen.get((s, ns), 0)))
+                               min(2, w.gen.get((s, ns), 0))))
                 else:
-                    st.append((False, w.gen.get((s, ns), 0)))
+                    st.append((False, min(2, w.gen.get((s, ns), 0))))
             # what the transport's engine.io session holds (shape only)
             sess = w.transports[w.slot[s]].session
             st.append(tuple(sorted(k for k, v in sess.items() if v)))
@@ -162,19 +204,21 @@ class Model:
                 continue
             got = r[1]
             if got != want:
-                me = (s, ns, w.slot[s])
+                me = (s, ns, w.slot[s], w.gen[(s, ns)])
                 owners = _owners(got)
                 foreign = owners - {me}
                 if any(o[0] != s for o in foreign):
                     key = 'leak-other-client'
                 elif any(o[1] != ns for o in foreign):
                     key = 'leak-other-namespace'
-                elif foreign:
+                elif any(o[2] != w.slot[s] for o in foreign):
                     key = 'stale-session/across-transports'
-                elif owners and not _subset(got, want):
-                    # everything in it was written through this very
-                    # transport and namespace, but by an earlier connection
+                elif foreign:
+                    # written through this very transport and namespace,
+                    # but by an earlier connection (generation)
                     key = 'stale-session/same-transport-reconnect'
+                elif not _subset(got, want):
+                    key = 'not-replaced'
                 else:
                     key = 'lost-update'
                 self._bad(w, key, f'slot {s} {ns}: get_session = {got!r}, '
@@ -200,7 +244,7 @@ def _owners(val):
         if 'owner' in val:
             out.add(tuple(val['owner']))
         for k, v in val.items():
-            if k.startswith('m') and isinstance(v, list):
+            if k[:1] in 'mo' and isinstance(v, list) and len(v) == 4:
                 out.add(tuple(v))
     return out
 
@@ -219,7 +263,7 @@ e1.register('c16', factory)
 def run(tier, seed, result):
     notes = []
     closure = True
-    cap = 1 if tier == 'quick' else 2
+    cap = 2 if tier == 'quick' else 3
     for is_async in (False, True):
         params = dict(is_async=is_async, cap=cap, seed=seed)
         if tier == 'quick':
